@@ -428,7 +428,7 @@ def fx_function(fi, args):
         for i, st in enumerate(stmts):
             if isinstance(st, ast.Expr) and isinstance(st.value, ast.Constant):
                 continue
-            if isinstance(st, ast.Assert):
+            if isinstance(st, (ast.Assert, ast.Pass)):
                 continue
             if isinstance(st, ast.Assign) and len(st.targets) == 1 and isinstance(st.targets[0], ast.Name):
                 env[st.targets[0].id] = _fx(st.value, env)
